@@ -441,6 +441,66 @@ pub fn run(ctx: &Ctx) -> (Stats, Report) {
     }
     st.section("pool_values_x_rich_pictures", &mut mark);
 
+    // E1c: every name / meridian token followed by every one- and two-token separator (punctuation
+    // and blank in both orders, two punctuation marks) and then another field, over dates that
+    // cover every month and weekday
+    {
+        let puncts = ["-", ":", "/", ".", ",", ";", "\\"];
+        let mut seps: Vec<String> = vec![" ".into(), "  ".into()];
+        for p in puncts {
+            seps.push(p.to_string());
+            seps.push(format!("{p} "));
+            seps.push(format!(" {p}"));
+            seps.push(format!(" {p} "));
+            for q in [".", ",", "-"] {
+                seps.push(format!("{p}{q}"));
+            }
+        }
+        let heads = ["DAY", "Day", "day", "DY", "Dy", "dy", "MON", "Mon", "mon", "MONTH", "Month", "month"];
+        let mut pics: Vec<String> = vec![];
+        for h in heads {
+            for sp in &seps {
+                let is_month = h.to_ascii_uppercase().starts_with("MON");
+                // the rest of a lossless picture after the name token
+                pics.push(if is_month { format!("{h}{sp}DD YYYY HH24:MI:SS") } else { format!("{h}{sp}DD.MM.YYYY HH24:MI:SS") });
+                pics.push(if is_month { format!("YYYY DD {h}{sp}HH24:MI:SS") } else { format!("YYYY-MM-DD {h}{sp}HH24:MI:SS") });
+            }
+        }
+        for sp in &seps {
+            for mer in ["AM", "p.m."] {
+                pics.push(format!("YYYY-MM-DD HH:MI:SS {mer}{sp}FF6"));
+            }
+        }
+        let c = cal();
+        let base = c.lookup(2023, 12, 28).unwrap() as i128;
+        let days: Vec<i128> = (0..7).map(|k| base + k).chain((1..=12).map(|m| c.lookup(1969, m, 14 + m).unwrap() as i128)).collect();
+        let (pref, dref) = (&pics, &days);
+        let s = par_sweep(pics.len() as u64, 4, |range, st| {
+            for k in range {
+                let pic = &pref[k as usize];
+                if tokenize(pic).is_none() {
+                    continue;
+                }
+                for (j, d) in dref.iter().enumerate() {
+                    let raw = d * US_PER_DAY + [0i128, 45_296_000_000, 86_399_000_000][j % 3];
+                    for kind in [Kind::Ts, Kind::Ora] {
+                        if kind == Kind::Ora && pic.contains("FF") {
+                            continue;
+                        }
+                        st.evaluations += 1;
+                        st.fps.push(hash_bytes(hash_ints(kind.index() as u64 + 0x61, &[raw]), pic.as_bytes()));
+                        if let Err(m) = check_roundtrip(kind, raw, pic) {
+                            st.fail(k, case_of(kind, raw, pic), m);
+                            return;
+                        }
+                    }
+                }
+            }
+        });
+        st.merge(s);
+    }
+    st.section("name_tokens_x_separators", &mut mark);
+
     // concurrent histories: 16 threads round-trip their own values at once
     {
         let iters = if ctx.thorough { 300_000 } else { 15_000 };
@@ -459,7 +519,7 @@ pub fn run(ctx: &Ctx) -> (Stats, Report) {
     st.section("concurrent_histories", &mut mark);
 
     let rep = Report {
-        rule: "Lossless picture grammar per type (4-digit year + month [number / abbreviated / full name in any style] + day, or year + day of year, optional consistent day-of-year and weekday fields; 24-hour or 12-hour + one of the meridian spellings; minute, second; fraction FF / FFp with p large enough for the value; interval year/day first then the other fields), fields permuted, separators drawn from \"\" - / : . , ; \\ T and blank runs with a non-empty separator forced after variable-width fields and between name fields. E1: all dates x generated pictures (fresh per 4096-date chunk), all seconds x generated pictures on Time/Timestamp/OracleDate; E1b: boundary + binary-boundary pool values of every type (for Timestamp / OracleDate also times of day at 2^k us / ms / s and multiples of 2^31 / 2^32 us counted from midnight AND back from the next midnight, on boundary dates before and after 1970) x three fixed rich pictures carrying every consistent redundant field + one generated picture; E2: proptest-generated values x pictures for all six types with shrinking; concurrent histories (16 threads). Oracle: parse(format(v,p),p) == v and format(that,p) == text byte for byte; the formatted text is also compared with the reference renderer so compensating errors cannot hide. Non-trivial = at least two value fields and one of: non-canonical order, a name field, 12-hour clock, extra consistency field, empty separator; distinct by (type, picture, value).".into(),
+        rule: "Lossless picture grammar per type (4-digit year + month [number / abbreviated / full name in any style] + day, or year + day of year, optional consistent day-of-year and weekday fields; 24-hour or 12-hour + one of the meridian spellings; minute, second; fraction FF / FFp with p large enough for the value; interval year/day first then the other fields), fields permuted, separators drawn from \"\" - / : . , ; \\ T and blank runs with a non-empty separator forced after variable-width fields and between name fields. E1: all dates x generated pictures (fresh per 4096-date chunk), all seconds x generated pictures on Time/Timestamp/OracleDate; E1b: boundary + binary-boundary pool values of every type (for Timestamp / OracleDate also times of day at 2^k us / ms / s and multiples of 2^31 / 2^32 us counted from midnight AND back from the next midnight, on boundary dates before and after 1970) x three fixed rich pictures carrying every consistent redundant field + one generated picture; E1c: every name / meridian token x every one- and two-token separator (punctuation and blank in both orders, two punctuation marks) x a following field, over dates covering every month and weekday; E2: proptest-generated values x pictures for all six types with shrinking; concurrent histories (16 threads). Oracle: parse(format(v,p),p) == v and format(that,p) == text byte for byte; the formatted text is also compared with the reference renderer so compensating errors cannot hide. Non-trivial = at least two value fields and one of: non-canonical order, a name field, 12-hour clock, extra consistency field, empty separator; distinct by (type, picture, value).".into(),
         assumptions: vec!["bare FF is treated as variable width on input (up to nine digits are read), FFp as exactly p digits".into()],
         exhaustive: false,
         extra: Default::default(),
